@@ -171,7 +171,7 @@ Section EqStFacts.
       + apply (i_clen HI).
       + intros k Hk. rewrite A in Hk. rewrite (D k Hk). apply (i_dead HI Hk).
       + intros k Hk. rewrite A in Hk. apply (i_own HI Hk).
-      + intros k Hk. rewrite A in Hk. rewrite eq_hbk. apply (i_key1 HI Hk).
+      + intros k Hk. rewrite A in Hk. rewrite eq_hbk, eq_mo. apply (i_key1 HI Hk).
       + intros k Hk. rewrite A in Hk. rewrite eq_hbk, eq_seen. apply (i_seen HI Hk).
       + intros k Hk. rewrite A in Hk. apply eq_K. apply (i_hbmo HI Hk).
       + intros k u Hk Hu. rewrite A in Hk. rewrite eq_mo. apply (i_bmo HI Hk Hu).
@@ -568,7 +568,8 @@ Proof.
 Qed.
 
 Theorem atomic_new_goodS : forall me c0 v0 cs,
-  me < length cs -> length cs <= MAX_THREADS -> clk cs me = c0 -> 1 <= vv_get c0 me ->
+  me < length cs -> length cs <= MAX_THREADS -> clk cs me = c0 ->
+  (1 <= vv_get c0 me \/ forall q, vv_get c0 q = 0) ->
   (forall t, t < length cs -> t < length (clk cs t)) ->
   (forall u t, u < length cs -> t < length cs -> vv_get (clk cs u) t <= vv_get (clk cs t) t) ->
   GoodS (s_new me c0 v0, cs).
@@ -593,7 +594,7 @@ Proof.
       destruct a as [|[|[|[|[|[|[|a]]]]]]]; try lia; try reflexivity.
       unfold get_store. cbn. destruct a; reflexivity.
     - intros a _. exact Hme.
-    - intros a Ha. rewrite (H0 a Ha). exact Hk1.
+    - intros a Ha. rewrite (H0 a Ha). destruct Hk1 as [H|H]; [left; exact H | right; exact H].
     - intros a Ha. rewrite (H0 a Ha). exact Hseen0.
     - intros a Ha. rewrite (H0 a Ha). unfold K, hbk, mo. cbn. apply le_n.
     - intros a t Ha Ht. rewrite (H0 a Ha). unfold mo. cbn [s s_new get_store at_stores nth st_mo].
